@@ -207,7 +207,7 @@ ADDENDA4 = {
     "C06": "Also: label rules with the standard prefix on; missing targets above 32699 from every jump-bearing statement kind.",
     "C07": "Also: hex literals of value zero; bundle round trip (statements after `procedure prog` = output without dependencies, parsable) for literals with control characters and comment markers.",
     "C08": "Also: 22 kinds of last token directly followed by the final line end / blank line / trailing NUL.",
-    "C09": "Also: reserved words inside or at the end of names; string capacity per kind under -s 40; z3 name-language query with a short time-out.",
+    "C09": "Also: reserved words inside or at the end of names; string capacity per kind under -s 40; z3 name-language query (the whole spelling as one solver variable: decided in both directions for numeric and string names).",
     "C10": "Also: DIM statements whose string sizes interleave; concrete-size fallback when the integer proxy cannot be followed.",
     "C11": "Also: with filtering on every jump target of the output is still a label.",
     "C12": "Also: decoder history - two well-formed pictures per format decoded in one process equal their fresh-process decodes.",
